@@ -60,22 +60,36 @@ func runWheelImpl(h *whist) (o wobs) {
 	return o
 }
 
+// zlit prints an int64 as a Z literal; long decimal literals are slow to parse in Coq (quadratic in the
+// number of digits), hexadecimal ones are not.
+func zlit(x int64) string {
+	if x > -100000 && x < 100000 {
+		return hx.Z(x)
+	}
+	if x < 0 {
+		return fmt.Sprintf("(-0x%x)%%Z", -uint64(x)) // two's complement magnitude, right for MinInt64 too
+	}
+	return fmt.Sprintf("0x%x%%Z", x)
+}
+
+// wheelLit: WA/WV/WP are monomorphic aliases of OAdd/OAdvance/OPurge (cheap to elaborate); the outputs are
+// encoded as item+1, 0 standing for "Purge said false".
 func wheelLit(h *whist, o *wobs) string {
 	var sb strings.Builder
 	sb.WriteString("(Wheel_corr.CWheel ")
 	sb.WriteString(hx.Bool(h.locking))
-	sb.WriteString(" " + hx.Z(h.mn) + " " + hx.Z(h.mx) + " [")
+	sb.WriteString(" " + zlit(h.mn) + " " + zlit(h.mx) + " [")
 	for i, op := range h.ops {
 		if i > 0 {
 			sb.WriteString("; ")
 		}
 		switch op.k {
 		case 0:
-			fmt.Fprintf(&sb, "OAdd %d %s", op.id, hx.Z(op.t))
+			fmt.Fprintf(&sb, "WA %d %s", op.id, zlit(op.t))
 		case 1:
-			fmt.Fprintf(&sb, "OAdvance %s", hx.Z(op.t))
+			fmt.Fprintf(&sb, "WV %s", zlit(op.t))
 		default:
-			sb.WriteString("OPurge")
+			sb.WriteString("WP")
 		}
 	}
 	sb.WriteString("] [")
@@ -83,11 +97,7 @@ func wheelLit(h *whist, o *wobs) string {
 		if i > 0 {
 			sb.WriteString("; ")
 		}
-		if v < 0 {
-			sb.WriteString("None")
-		} else {
-			fmt.Fprintf(&sb, "Some %d", v)
-		}
+		fmt.Fprintf(&sb, "%d", v+1)
 	}
 	sb.WriteString("])")
 	return sb.String()
